@@ -212,6 +212,28 @@ def run_shard(spec, acc):
             acc.violation('library-not-loaded-again', f'run {k + 2} on the reused options with fresh globals did not bind diffLines', {'history': 'options-reuse'})
             return
         check_pair(['a', 'b', 'c'], ['a', 'x', 'c', 'd'], 'array', fn_next, options_r, acc)
+    # history: a host keeps ONE globals object (the library loads once) and runs many scripts on it, each run with its own options and
+    # the same finite statement budget - every run is charged to its own budget only
+    probe = {'globals': {}, 'fetchFn': bare._fetch_include, 'systemPrefix': bare._FETCH_INCLUDE_PREFIX, 'maxStatements': 0}  # pylint: disable=protected-access
+    text_h = "include <diff.bare>\nreturn diffLines(arrayNew('a', 'b', 'c', 'd', 'e', 'f'), arrayNew('a', 'x', 'c', 'e', 'f', 'g', 'h'))"
+    first = bare_script.execute_script(bare_script.parse_script(text_h), probe)
+    budget = 3 * probe.get('statementCount', 1000)
+    g_h = {}
+    for k in range(9):
+        o_h = {'globals': g_h, 'fetchFn': bare._fetch_include, 'systemPrefix': bare._FETCH_INCLUDE_PREFIX, 'maxStatements': budget}  # pylint: disable=protected-access
+        if k % 3 == 2:
+            o_h['logFn'] = (lambda m: None)
+            o_h['debug'] = True
+        acc.case(('same-globals-finite-budget', k), True)
+        try:
+            got_h = bare_script.execute_script(bare_script.parse_script(text_h), o_h)
+        except Exception as exc:  # pylint: disable=broad-except
+            acc.violation('run-charged-for-earlier-runs', f'run {k + 1} of the same script on the same globals, each run with its own budget of {budget} statements (one run needs {budget // 3}): {type(exc).__name__}: {exc}', {'history': 'same-globals-finite-budget'})
+            return
+        if got_h != first or o_h.get('statementCount', 0) > budget // 3:
+            acc.violation('run-charged-for-earlier-runs', f'run {k + 1}: result {got_h!r:.200} (first run {first!r:.200}), count {o_h.get("statementCount")} vs {budget // 3} of the first run', {'history': 'same-globals-finite-budget'})
+            return
+        acc.count('same_globals_finite_budget_runs')
     # an application that includes one of its own files first and the library afterwards (separate include statements, no
     # systemPrefix: the system include resolves like a plain one - against the includer, not against the file included before)
     src = bare._fetch_include({'url': bare._FETCH_INCLUDE_PREFIX + 'diff.bare'})  # pylint: disable=protected-access
